@@ -180,7 +180,11 @@ def run(prog: Program, L: Ledger) -> None:
         inl = Inliner(step.node)
         spc = spp[0]
         smc = sm[0]
-        arg = inl.inline(spc.args[0]) if spc.args else None
+        from ..dataflow import seq_inline
+
+        # locals bound more than once (`positions = get_positions(); positions = positions + d`, the rebinding form of an
+        # in-place `+=` on a private copy) are followed in program order
+        arg = inl.inline(seq_inline(sbody, spc.args[0], stop_at=spc)) if spc.args else None
         vocab = Vocabulary({"self.atoms.get_momenta()": ("Pback", {"real": True}), "self.atoms.get_velocities()": ("Vback", {"real": True}), "self.shaped_masses": ("msh", {"positive": True}),
                             "self.atoms.get_positions()": ("X0", {"real": True}), "self.atoms.positions.copy()": ("X0", {"real": True})})
         tr = Translator(vocab)
